@@ -1,4 +1,6 @@
 import T4V.Model.BC
+import T4V.Spec.T4
+import T4V.Proofs.Composition
 /-!
 # Property C16 — reflecting and white surfaces become boundary conditions (entry logic)
 
@@ -162,5 +164,58 @@ theorem designation_fails_when_a_flagged_surface_is_not_written :
 example : bcEntries [⟨1, "", 1⟩, ⟨2, "*", 1⟩, ⟨3, "+", 1⟩] = .ok [(2, "REFLECTION"), (3, "COSINUS")] := by
   simp [bcEntries, bcKind?]
 example : bcEntries [⟨1, "*", 6⟩] = .error .macrobody := by simp [bcEntries]
+
+/-! ### the block as written and as read back (C08: declared count = entries; C16: kind and number of each entry) -/
+open T4V.CMP T4V.WR
+
+theorem bcEntries_kinds : ∀ (surfs : List BCSurf) (es : List (Nat × String)), bcEntries surfs = .ok es →
+    ∀ e ∈ es, e.2 = "REFLECTION" ∨ e.2 = "COSINUS" := by
+  intro surfs es h e he
+  rw [entries_partial surfs es h] at he
+  obtain ⟨s, _, hs⟩ := List.mem_filterMap.mp he
+  cases hk : bcKind? s.flag with
+  | none => simp [hk] at hs
+  | some k =>
+    simp only [hk, Option.map_some, Option.some.injEq] at hs
+    subst hs
+    unfold bcKind? at hk
+    split at hk <;> simp_all
+
+theorem bcLine_entries : ∀ (es : List (Nat × String)) (a : BCAcc), (∀ e ∈ es, e.2 = "REFLECTION" ∨ e.2 = "COSINUS") →
+    ((es.map fun (p : Nat × String) => "ALL_COMPLETE" ++ " " ++ p.2 ++ " " ++ toString p.1).map words).foldl bcLine a =
+      { a with entries := a.entries ++ es.map fun p => (p.2, p.1) }
+  | [], a, _ => by simp
+  | (i, k) :: r, a, h => by
+    have hk : Tok k := by
+      rcases h (i, k) List.mem_cons_self with rfl | rfl <;> exact ⟨by decide, by decide⟩
+    have hw : words ("ALL_COMPLETE" ++ " " ++ k ++ " " ++ toString i) = ["ALL_COMPLETE", k, toString i] := by
+      simp only [words_append_blank]
+      rw [words_tok _ (⟨by decide, by decide⟩ : Tok "ALL_COMPLETE"), words_tok _ hk, words_tok _ (tok_nat i)]
+      rfl
+    simp only [List.map_cons, List.foldl_cons, hw]
+    have hb : bcLine a ["ALL_COMPLETE", k, toString i] = { a with entries := a.entries ++ [(k, i)] } := by
+      simp [bcLine]
+    rw [hb, bcLine_entries r _ (fun e he => h e (List.mem_cons_of_mem _ he))]
+    simp [List.append_assoc]
+
+/-- **the BOUNDARY_CONDITION block is read back exactly**: from the text of the lines between the keyword and
+END_BOUNDARY_CONDITION the reader recovers the declared count — which is the number of entries — and, in order, the
+kind and the surface number of every entry, without a complaint -/
+theorem bc_block_roundtrip (surfs : List BCSurf) (es : List (Nat × String)) (h : bcEntries surfs = .ok es) (hne : es ≠ []) :
+    ∃ inner, bcTextLines es = ["", "BOUNDARY_CONDITION"] ++ inner ++ ["END_BOUNDARY_CONDITION"] ∧
+      (inner.map words).foldl bcLine {} =
+        { declared := some es.length, entries := es.map fun p => (p.2, p.1), errs := [] } := by
+  refine ⟨toString es.length :: es.map (fun (p : Nat × String) => "ALL_COMPLETE" ++ " " ++ p.2 ++ " " ++ toString p.1), ?_, ?_⟩
+  · unfold bcTextLines
+    have : es.isEmpty = false := by cases es with | nil => exact absurd rfl hne | cons _ _ => rfl
+    simp [this]
+  · simp only [List.map_cons, List.foldl_cons, words_tok _ (tok_nat _)]
+    have h0 : bcLine {} [toString es.length] = { declared := some es.length } := by
+      simp [bcLine]
+    rw [h0, bcLine_entries es _ (bcEntries_kinds surfs es h)]
+    simp
+
+/-- no flagged surface, no block -/
+theorem no_entries_no_block : bcTextLines [] = [] := rfl
 
 end T4V.C16
